@@ -308,6 +308,14 @@ def r18_7(ctx):
             a = ex.call_args(bb)
             flds = [[x[2] for x in subexprs(y) if x[0] == "field"] for y in a]
             ok = "pv_moves" in flds[0] and "cur_line" in flds[1]
+    # or the whole-array assignment `self.pv_moves = self.cur_line` (arrays of Copy items)
+    sp = params_by_type(b, "&mut search::Search")
+    for loc, st in b.iter_stmts():
+        if st["k"] == "assign" and [e_.get("name") for e_ in st["place"]["proj"] if e_["k"] == "field"] == ["pv_moves"] and not any(e_["k"] == "index" for e_ in st["place"]["proj"]):
+            v = strip_refs(ex.rvalue(st["rv"], loc))
+            if v[0] == "call" and v[1].endswith("Clone>::clone") and len(v[2]) == 1:
+                v = strip_refs(v[2][0])
+            ok = v[0] == "field" and v[2] == "cur_line" and len(sp) == 1 and root_local(v[1]) == sp[0] and st["place"]["local"] == sp[0]
     ctx.ob("set_principle_variation", ok, b.file, "pv_moves <- cur_line")
     b = f.body(SSI)
     pvs = [_pv_fold(f, r) for loc, t, r in _info_sites(b) if r is not None]
